@@ -66,6 +66,11 @@ class Store:
         paths = ["a", "b"]
         if kind == "ns":
             paths = ["a", "b", "u1/a", "u1/b", "u2/a", "u2/b", "0/a", "0/b"]
+        if kind == "choicens":
+            # a namespace-aware first child that only knows namespace u1, in front of a shared fallback
+            paths = ["u1/a", "u1/b"]
+            self.d2["a"] = "<fallback-a>"
+            self.d2["b"] = "<fallback-b>"
         for p in paths:
             self.write(p, 0)
         if kind == "choice":
@@ -145,6 +150,9 @@ def make_loaders(cfg: dict[str, Any], store: Store) -> tuple[Any, Any]:
         return liquid.CachingFileSystemLoader(roots, **kw), lambda: liquid.FileSystemLoader(roots)
     if k == "ns":
         return _caching_ns_class()(store, **kw), lambda: NSLoader(store)
+    if k == "choicens":
+        mk2 = lambda: [NSLoader(store), liquid.DictLoader(store.d2)]  # noqa: E731
+        return liquid.CachingChoiceLoader(mk2(), **kw), lambda: liquid.ChoiceLoader(mk2())
     raise AssertionError(k)
 
 
@@ -235,6 +243,8 @@ def source_path(cfg: dict[str, Any], act: dict[str, Any]) -> str:
     ns = act.get("ns")
     if cfg["kind"] == "ns" and ns:
         return f"{ns.split(':', 1)[1]}/{act['name']}"
+    if cfg["kind"] == "choicens" and ns and ns.split(":", 1)[1] == "u1" and act["name"] in ("a", "b"):
+        return f"u1/{act['name']}"
     return act["name"]
 
 
@@ -268,6 +278,8 @@ def model_step(cfg: dict[str, Any], state: Any, act: dict[str, Any]) -> Any:
 
 def init_state(cfg: dict[str, Any]) -> Any:
     paths = ["a", "b"] + (["u1/a", "u1/b", "u2/a", "u2/b", "0/a", "0/b"] if cfg["kind"] == "ns" else [])
+    if cfg["kind"] == "choicens":
+        paths += ["u1/a", "u1/b"]
     return (tuple(sorted((p, 0) for p in paths)), ())
 
 
@@ -285,7 +297,9 @@ def alphabet(cfg: dict[str, Any], tier: str) -> list[dict[str, Any]]:
             if cfg["kind"] == "ns":
                 nss.append("kw:0")
     else:
-        nss = [None, "kw:u1"] if tier != "quick" else [None]
+        # a namespace-aware loader must be given a namespace_key (documented); without one it only gets
+        # requests that name no namespace.  The other loaders ignore the extra argument.
+        nss = [None, "kw:u1"] if tier != "quick" and cfg["kind"] not in ("ns", "choicens") else [None]
     globs: list[Any] = [None, {"g": 1}] + ([{"g": 2}] if tier != "quick" else [])
     if lean:
         globs = [None] if cfg["kind"] != "fs" else [None, {"g": 1}]
@@ -304,6 +318,8 @@ def alphabet(cfg: dict[str, Any], tier: str) -> list[dict[str, Any]]:
             acts.append({"op": "edit", "path": "a", "backwards": True})
         if cfg["kind"] == "ns" and cfg["namespaced"]:
             acts.append({"op": "edit", "path": "u1/a"})
+    if cfg["kind"] == "choicens" and cfg["namespaced"]:
+        acts.append({"op": "edit", "path": "u1/a"})  # the namespace-aware child exposes uptodate
     return acts
 
 
@@ -658,7 +674,8 @@ class C23(Check):
     level = "model_checking"
     rule = (
         "BFS over request/edit histories on real CachingDictLoader, CachingChoiceLoader, CachingFileSystemLoader and "
-        "CachingLoaderMixin+namespace-aware loader; configurations = capacity 1..4 x auto_reload x namespace_key "
+        "CachingLoaderMixin+namespace-aware loader, and CachingChoiceLoader over [namespace-aware child knowing only "
+        "namespace u1, shared DictLoader fallback]; configurations = capacity 1..4 x auto_reload x namespace_key "
         "set/unset; alphabet = get(name in {a,b,missing}, namespace by kwarg/context/none, sync|async, globals) + "
         "source edits (file rewrite with explicit mtime / version bump); every transition is executed on a fresh real "
         "loader rebuilt by replaying the shortest history and compared with a fresh non-caching loader over the same "
@@ -684,14 +701,16 @@ class C23(Check):
 
     def bounds(self, tier: str) -> dict[str, Any]:
         return {"bfs_depth": "fs: 3 (capacity 1-2) / 2 (capacity 3-4), others: 4" if tier == "quick" else "fs: 4, others: 5",
-                "configs": 64, "concurrent_deviation_bound": 2 if tier == "quick" else 3}
+                "configs": 74, "concurrent_deviation_bound": 2 if tier == "quick" else 3}
 
     def shards(self, tier: str) -> list[Any]:
         sh: list[Any] = []
-        for kind in ("dict", "choice", "fs", "ns"):
+        for kind in ("dict", "choice", "fs", "ns", "choicens"):
             for cap in (1, 2, 3, 4):
                 for auto in (True, False):
                     for namespaced in (False, True):
+                        if kind == "choicens" and not namespaced and cap > 1:
+                            continue  # nothing namespace-related reaches it without a key: one capacity suffices
                         cfg = {"kind": kind, "capacity": cap, "auto_reload": auto, "namespaced": namespaced}
                         sh.append(("bfs", cfg))
         bases = concurrent_bases(tier)
